@@ -173,10 +173,7 @@ class Interp(HeapMixin, OpsMixin, StmtMixin, CallMixin):
             run.assume(z3.Int(name + "#size") >= 0)
             return ref
         if k == "callback":
-            spec = {}
-            if self.contract is not None:
-                spec = self.contract.callbacks.get(name) or self.contract.callbacks.get(name.split(".")[-1]) or {}
-            return VCallback(name, spec)
+            return VCallback(name, self.cb_spec(name))
         if k == "lock":
             h = z3.Int(name + "#held")
             run.inputs[name + "#held"] = h
